@@ -16,23 +16,25 @@ CLASS_SPECS = {'CIMInstanceName': {'namespace': Opt(Str), 'host': Opt(Str)}}
 
 
 def iter_contract(name, flag, open_name, pull_name, trad_name, result_field, first_params, open_kwargs):
-    CONN = Obj('WBEMConnection', **{flag: Opt(Bool)}, _g_open=Bool, host=Str, default_namespace=Str,
+    CONN = Obj('WBEMConnection', **{flag: Opt(Bool)}, _use_pull_operations=Opt(Bool), _g_open=Bool, _g_err=Bool, host=Str, default_namespace=Str,
                conn_id=Opt(Str))
     RESULT = Obj('pull_result', **{result_field: PATHS}, eos=Bool, context=Opt(TupleOf(Str, Str)))
     SENT = f'sent() == old(sent()) + result.{result_field}'
-    open_c = Contract(K + open_name, returns=RESULT, modifies=['self._g_open', '$sent'],
+    open_c = Contract(K + open_name, returns=RESULT, modifies=['self._g_open', 'self._g_err', '$sent'],
                       requires=['not self._g_open'],
                       ensures=[('open-iff-not-eos', 'self._g_open == (not result.eos)'), ('hands-over', SENT),
-                               ('context-iff-not-eos', 'result.eos == (result.context is None)')],
-                      raises={'CIMError': Raises(post=[('nothing-opened', 'not self._g_open')]),
-                              'ConnectionError': Raises(post=[('nothing-opened', 'not self._g_open')])},
+                               ('context-iff-not-eos', 'result.eos == (result.context is None)'),
+                               ('no-error', 'self._g_err == old(self._g_err)')],
+                      raises={'CIMError': Raises(post=[('nothing-opened', 'not self._g_open and sent() == old(sent())'), ('established-session-error-recorded', f'self._g_err == (old(self._g_err) or old(self.{flag}) is True)')]),
+                              'ConnectionError': Raises(post=[('nothing-opened', 'not self._g_open and sent() == old(sent())')])},
                       trusted=True, notes='C14 proves the server side of Open...; assumed here for the client stub')
-    pull_c = Contract(K + pull_name, returns=RESULT, modifies=['self._g_open', '$sent'],
+    pull_c = Contract(K + pull_name, returns=RESULT, modifies=['self._g_open', 'self._g_err', '$sent'],
                       caller_requires=[],
                       requires=['self._g_open'],
                       ensures=[('open-iff-not-eos', 'self._g_open == (not result.eos)'), ('hands-over', SENT),
-                               ('context-iff-not-eos', 'result.eos == (result.context is None)')],
-                      raises={'CIMError': Raises(post=[('still-open', 'self._g_open and sent() == old(sent())')]),
+                               ('context-iff-not-eos', 'result.eos == (result.context is None)'),
+                               ('no-error', 'self._g_err == old(self._g_err)')],
+                      raises={'CIMError': Raises(post=[('still-open', 'self._g_open and sent() == old(sent())'), ('established-session-error-recorded', f'self._g_err == (old(self._g_err) or old(self.{flag}) is True)')]),
                               'ConnectionError': Raises(post=[('still-open', 'self._g_open and sent() == old(sent())')])},
                       trusted=True, notes='a failing pull leaves the enumeration open (it must still be closed)')
     close_c = Contract(K + 'CloseEnumeration', modifies=['self._g_open'], requires=['self._g_open'],
@@ -45,16 +47,17 @@ def iter_contract(name, flag, open_name, pull_name, trad_name, result_field, fir
     params.update({'self': CONN, 'OperationTimeout': Opt(Int), 'ContinueOnError': Opt(Bool), 'MaxObjectCount': Int})
     return Contract(
         K + name, params=params,
-        requires=['not self._g_open', 'MaxObjectCount > 0', 'OperationTimeout is None or OperationTimeout >= 0'],
+        requires=['not self._g_open', 'not self._g_err', 'MaxObjectCount > 0', 'OperationTimeout is None or OperationTimeout >= 0'],
         callees={open_name: open_c, pull_name: pull_c, 'CloseEnumeration': close_c, trad_name: trad_c},
-        loops={1: LoopSpec(modifies=['self._g_open', '$sent', '$yielded'], types={'pull_result': RESULT},
+        loops={1: LoopSpec(modifies=['self._g_open', 'self._g_err', '$sent', '$yielded'], types={'pull_result': RESULT},
                            invariant=[('yielded-equals-delivered', 'yielded() == sent()'),
                                       ('open-iff-last-not-eos', 'self._g_open == (not pull_result.eos)'),
-                                      ('flag-learned', f'self.{flag} is True')]),
+                                      ('flag-learned', f'self.{flag} is True'), ('no-error-so-far', 'not self._g_err')]),
                **({2: LoopSpec(target='path', modifies=['$fields'], types={'path': Ref('CIMInstanceName')})}
                   if name == 'IterEnumerateInstancePaths' else {})},
         ensures=[('exhausted-yields-exactly-what-was-delivered-in-order', 'yielded() == sent()'),
                  ('no-enumeration-left-open', 'not self._g_open'),
+                 ('error-of-an-established-pull-session-is-never-swallowed', 'not self._g_err'),
                  ('flag-only-learned', f'old(self.{flag}) is None or self.{flag} == old(self.{flag})')],
         raises={
             'GeneratorExit': Raises(post=[('closed-early-leaves-no-enumeration-open', 'not self._g_open'),
